@@ -227,3 +227,333 @@ Proof.
     + destruct (a_validate A v). discriminate.
   - left. injection H as <-. auto.
 Qed.
+
+Lemma jclassify_delta A ev raw v errs rerrs dl : jclassify A ev raw = CEvent v errs rerrs dl -> dl = text_delta v.
+Proof.
+  unfold jclassify. destruct (parse_value_of A raw) as [v0|]; [|discriminate].
+  destruct (MAX_PAYLOAD_NESTING <? json_depth v0)%nat; [discriminate|].
+  destruct (a_validate A v0). intros H. injection H as <- _ _ <-. reflexivity.
+Qed.
+
+(* the text delta of a value: the `delta` string member of an object whose `type` member is the string
+   "response.output_text.delta" (first binding = only binding: `canon` leaves no duplicate keys) *)
+Lemma text_delta_spec v d :
+  text_delta v = Some d <->
+  exists kvs, v = JObj kvs /\ assoc S_TYPE kvs = Some (JStr S_OTD) /\ assoc S_DELTA kvs = Some (JStr d).
+Proof.
+  unfold text_delta, get_str. split.
+  - destruct v as [| | | |l|kvs]; try discriminate.
+    destruct (assoc S_TYPE kvs) as [[| | |t| |]|] eqn:Et; try discriminate.
+    destruct (str_eqb t S_OTD) eqn:Eq; [|discriminate]. apply JsonProofs.str_eqb_spec in Eq. subst t.
+    destruct (assoc S_DELTA kvs) as [[| | |s| |]|] eqn:Ed; try discriminate.
+    intros H. injection H as <-. exists kvs. auto.
+  - intros (kvs & -> & Ht & Hd). rewrite Ht.
+    replace (str_eqb S_OTD S_OTD) with true by reflexivity. rewrite Hd. reflexivity.
+Qed.
+
+(* ================= every event of the stream is a classified payload ================= *)
+Definition ev_wf (cl : option str -> str -> cls) (e : pev) : Prop := exists ev raw, e = parse_event cl ev raw.
+
+Lemma line_step_wf cl s l : Forall (ev_wf cl) (snd (line_step cl s l)).
+Proof.
+  unfold line_step. destruct (Sse.strip_prefix S_EVENT (trim_end_cr l)); [constructor|].
+  destruct (Sse.strip_prefix S_DATA (trim_end_cr l)); [constructor|].
+  destruct (trim_end_cr l); [|constructor]. destruct (snd s); [constructor|].
+  cbn [snd]. constructor; [|constructor]. eexists _, _. reflexivity.
+Qed.
+
+Lemma fold_lines_wf cl ls : forall s, Forall (ev_wf cl) (snd (fold_lines cl s ls)).
+Proof.
+  induction ls as [|l ls IH]; intros s; cbn [fold_lines]; [constructor|].
+  pose proof (line_step_wf cl s l) as H1. destruct (line_step cl s l) as [s1 e1].
+  specialize (IH s1). destruct (fold_lines cl s1 ls) as [s2 e2]. cbn [snd] in *.
+  apply Forall_app. split; assumption.
+Qed.
+
+Lemma upto_done_Forall (P : pev -> Prop) l : Forall P l -> Forall P (upto_done l).
+Proof.
+  induction 1 as [|e l He _ IH]; cbn [upto_done]; [constructor|].
+  destruct (is_done e); constructor; auto.
+Qed.
+
+Lemma events_wf cl text : Forall (ev_wf cl) (upto_done (events_spec cl text)).
+Proof. apply upto_done_Forall. unfold events_spec. apply fold_lines_wf. Qed.
+
+(* ================= what a provider frame carries ================= *)
+(* f is the provider frame of event e: same status and event name, and
+   - terminal marker: raw = the payload = "[DONE]";
+   - not JSON (or JSON nested too deep for a frame): raw = the payload, the joined data lines, code point for code point;
+   - JSON: data = the Value of parse(payload), and printing data gives a text that parses back to data *)
+Definition carries (A : absfns) (f : frame) (e : pev) : Prop :=
+  match f with
+  | FDelta _ _ => False
+  | FProv _ st ev raw data _ _ =>
+    st = pe_kind e /\ ev = pe_event e /\
+    ((st = 0 /\ raw = Some (pe_raw e) /\ data = None /\ pe_raw e = S_DONE)
+     \/ (st = 1 /\ raw = Some (pe_raw e) /\ data = None /\
+         (parse_value_of A (pe_raw e) = None
+          \/ exists v, parse_value_of A (pe_raw e) = Some v /\ (MAX_PAYLOAD_NESTING < json_depth v)%nat))
+     \/ (st = 2 /\ raw = None /\
+         exists j v, parse (pe_raw e) = Some j /\ canon A j = Some v /\ data = Some v /\ parse (print v) = Some v))
+  end.
+
+Lemma carries_prov_frame A s e : fmt_ok A -> ev_wf (jclassify A) e -> carries A (prov_frame s e) e.
+Proof.
+  intros HA (ev & raw & ->). unfold parse_event.
+  destruct (lN_eqb raw S_DONE) eqn:Ed.
+  - apply lN_eqb_spec in Ed. cbn. repeat split. left. repeat split. exact Ed.
+  - destruct (jclassify A ev raw) as [errs|v errs rerrs dl] eqn:Ec.
+    + cbn. repeat split. right. left. repeat split.
+      destruct (jclassify_invalid _ _ _ _ Ec) as [[H _]|(v & H1 & H2 & _)]; [left; exact H|right; exists v; auto].
+    + cbn. repeat split. right. right. repeat split.
+      destruct (jclassify_event _ _ _ _ _ _ _ HA Ec) as ((j & Hp & Hc) & Hr & _).
+      exists j, v. auto.
+Qed.
+
+Lemma carries_strip A f e : carries A (strip_seq f) e -> carries A f e.
+Proof. destruct f; exact (fun H => H). Qed.
+
+Lemma Forall2_of_maps {X Y Z} (f : X -> Z) (g : Y -> Z) l1 : forall l2,
+  map f l1 = map g l2 -> Forall2 (fun x y => f x = g y) l1 l2.
+Proof.
+  induction l1 as [|x l1 IH]; intros [|y l2] H; try discriminate; constructor.
+  - cbn [map] in H. injection H as H _. exact H.
+  - apply IH. cbn [map] in H. injection H as _ H. exact H.
+Qed.
+
+Lemma Forall2_with_r {X Y} (R Q : X -> Y -> Prop) (P : Y -> Prop) l1 l2 :
+  Forall2 R l1 l2 -> Forall P l2 -> (forall x y, R x y -> P y -> Q x y) -> Forall2 Q l1 l2.
+Proof.
+  intros H. induction H as [|x y l1 l2 Hxy _ IH]; intros HP HQ; [constructor|].
+  inversion HP as [|? ? Py Pl]; subst. constructor; auto.
+Qed.
+
+(* the provider frames of any chunked run, paired in order with the server-sent events of the body *)
+Theorem payload_unchanged A off cs : fmt_ok A ->
+  Forall2 (carries A)
+    (filter is_prov (frames_of (jclassify A) FIXED off cs))
+    (upto_done (events_spec (jclassify A) (lossy_text (concat cs)))).
+Proof.
+  intros HA. pose proof (one_frame_per_event (jclassify A) off cs) as H.
+  apply Forall2_of_maps in H.
+  eapply Forall2_with_r; [exact H | apply events_wf |].
+  intros f e Hfe Hwf. apply carries_strip. rewrite Hfe. apply carries_prov_frame; assumption.
+Qed.
+
+(* ================= the derived text ================= *)
+(* the text delta a provider frame's data holds *)
+Definition data_delta (f : frame) : str :=
+  match f with
+  | FProv _ _ _ _ (Some v) _ _ => match text_delta v with Some d => d | None => [] end
+  | _ => []
+  end.
+
+Lemma output_text_data cl s evs : forall s0, s0 = s ->
+  (forall ev raw v errs rerrs dl, cl ev raw = CEvent v errs rerrs dl -> dl = text_delta v) ->
+  Forall (ev_wf cl) evs ->
+  output_text (frames_from s0 evs) = concat (map data_delta (filter is_prov (frames_from s0 evs))).
+Proof.
+  intros s0 _ Hcl H. revert s0. induction H as [|e evs (ev & raw & ->) _ IH]; intros s0; [reflexivity|].
+  cbn [frames_from]. rewrite filter_app, map_app, concat_app.
+  assert (E : forall a b, output_text (a ++ b) = output_text a ++ output_text b).
+  { induction a as [|[|] a IHa]; intros b; cbn [app output_text]; rewrite ?IHa, ?app_assoc; reflexivity. }
+  rewrite E, IH. f_equal. clear IH E.
+  unfold parse_event. destruct (lN_eqb raw S_DONE); [reflexivity|].
+  destruct (cl ev raw) as [errs|v errs rerrs dl] eqn:Ec; [reflexivity|].
+  rewrite (Hcl _ _ _ _ _ _ Ec). unfold ev_frames, prov_frame. cbn [pe_delta pe_kind pe_data pe_event pe_err pe_rerr].
+  change (2 =? 2) with true. cbv iota.
+  destruct (text_delta v) as [d|] eqn:Ed; cbn [app filter is_prov map data_delta concat output_text]; rewrite ?Ed, ?app_nil_r; reflexivity.
+Qed.
+
+(* the output text of a run = the concatenation, over its provider frames in order, of the text delta each one holds *)
+Theorem text_is_concat_of_data_deltas A off cs :
+  output_text (frames_of (jclassify A) FIXED off cs)
+  = concat (map data_delta (filter is_prov (frames_of (jclassify A) FIXED off cs))).
+Proof.
+  rewrite frames_of_whole. unfold frames_whole. apply (output_text_data (jclassify A) off); [reflexivity| |apply events_wf].
+  intros ev raw v errs rerrs dl H. eapply jclassify_delta. exact H.
+Qed.
+
+(* ================= stream_transformers::extract_text_deltas reads the same text ================= *)
+(* ... from the provider frames alone, unless a payload WITHOUT a string `type` arrives under the SSE event name
+   "response.output_text.delta": the library helper then falls back to the event name, the mapper never does *)
+Definition typed_or_unnamed (e : pev) : Prop :=
+  match pe_data e with
+  | Some v => pe_event e = Some S_OTD -> get_str S_TYPE v = None -> get_str S_DELTA v = None
+  | None => True
+  end.
+
+Lemma frame_text_delta_event s ev raw v errs rerrs :
+  frame_text_delta (FProv s 2 ev raw (Some v) errs rerrs) =
+  match get_str S_TYPE v with
+  | Some t => if str_eqb t S_OTD then get_str S_DELTA v else None
+  | None => match ev with
+            | Some n => if str_eqb n S_OTD then get_str S_DELTA v else None
+            | None => None
+            end
+  end.
+Proof.
+  unfold frame_text_delta, frame_event_type, get_str. change (2 =? 2) with true. cbv iota.
+  destruct v as [| | | |l|kvs]; try (destruct ev as [n|]; [destruct (str_eqb n S_OTD)|]; reflexivity).
+  destruct (assoc S_TYPE kvs) as [[| | |t| |]|]; try (destruct ev as [n|]; [destruct (str_eqb n S_OTD)|]; reflexivity).
+Qed.
+
+Lemma extract_app a b : extract_text_deltas (a ++ b) = extract_text_deltas a ++ extract_text_deltas b.
+Proof. unfold extract_text_deltas. apply flat_map_app. Qed.
+
+Lemma extract_frames_from A evs : forall s,
+  Forall (ev_wf (jclassify A)) evs -> Forall typed_or_unnamed evs ->
+  concat (extract_text_deltas (frames_from s evs)) = output_text (frames_from s evs).
+Proof.
+  assert (E : forall a b, output_text (a ++ b) = output_text a ++ output_text b).
+  { induction a as [|[|] a IHa]; intros b; cbn [app output_text]; rewrite ?IHa, ?app_assoc; reflexivity. }
+  induction evs as [|e evs IH]; intros s Hwf Hty; [reflexivity|].
+  inversion Hwf as [|? ? (ev & raw & He) Hwf']; subst. inversion Hty as [|? ? Hte Hty']; subst.
+  cbn [frames_from]. rewrite extract_app, concat_app, E, IH by assumption. f_equal. clear IH E Hwf Hty Hwf' Hty'.
+  unfold parse_event in *. destruct (lN_eqb raw S_DONE); [reflexivity|].
+  destruct (jclassify A ev raw) as [errs|v errs rerrs dl] eqn:Ec; [reflexivity|].
+  pose proof (jclassify_delta _ _ _ _ _ _ _ Ec) as ->.
+  unfold typed_or_unnamed in Hte. cbn [pe_data pe_event] in Hte.
+  unfold ev_frames, prov_frame. cbn [pe_delta pe_kind pe_data pe_event pe_err pe_rerr]. change (2 =? 2) with true. cbv iota.
+  assert (F : frame_text_delta (FProv s 2 ev None (Some v) errs rerrs) = text_delta v).
+  { rewrite frame_text_delta_event. unfold text_delta. destruct (get_str S_TYPE v) as [t|]; [reflexivity|].
+    destruct ev as [n|]; [|reflexivity]. destruct (str_eqb n S_OTD) eqn:En; [|reflexivity].
+    apply JsonProofs.str_eqb_spec in En. subst n. apply Hte; reflexivity. }
+  destruct (text_delta v) as [d|] eqn:Ed; unfold extract_text_deltas; cbn [flat_map]; rewrite F; cbn; rewrite ?app_nil_r; reflexivity.
+Qed.
+
+Theorem extractor_agrees A off cs :
+  Forall typed_or_unnamed (upto_done (events_spec (jclassify A) (lossy_text (concat cs)))) ->
+  concat (extract_text_deltas (frames_of (jclassify A) FIXED off cs)) = output_text (frames_of (jclassify A) FIXED off cs).
+Proof. intros H. rewrite frames_of_whole. apply (extract_frames_from A); [apply events_wf|exact H]. Qed.
+
+(* ================= the u64 arithmetic of the seq numbers ================= *)
+Lemma iotaN_bound n : forall s x, In x (iotaN s n) -> s <= x < s + N.of_nat n.
+Proof.
+  induction n as [|n IH]; intros s x H; [destruct H|].
+  cbn [iotaN] in H. destruct H as [<- | H]; [lia|]. apply IH in H. lia.
+Qed.
+
+Lemma run_pipe_shape cl off cs terr :
+  map fseq (fst (run_pipe cl FIXED off cs terr)) = iotaN off (length (fst (run_pipe cl FIXED off cs terr)))
+  /\ snd (run_pipe cl FIXED off cs terr) = off + nlen (fst (run_pipe cl FIXED off cs terr)).
+Proof.
+  destruct terr as [h|]; [apply seq_contiguous_transport_error|].
+  unfold run_pipe.
+  assert (Pre off pipe_new []) as HP by (repeat split).
+  destruct (run_chunks_spec cl off cs [] pipe_new [] HP eq_refl) as [P1 _]. cbn [app] in P1.
+  destruct (run_chunks cl FIXED off [] pipe_new cs) as [[buf p] d]. cbn [fst snd] in P1.
+  destruct P1 as (_ & [Ho Hm] & _ & _).
+  match type of Ho with _ = frames_from _ ?X => remember X as E eqn:HE end. clear HE.
+  destruct d; cbn [fst snd].
+  - rewrite Ho, Hm, frames_from_length. split; [apply frames_from_seqs|reflexivity].
+  - unfold pipe_finish. cbn [fx_cut FIXED]. destruct (dec_finish cl (p_dec p)) as [d2 e2].
+    destruct (emit_evs_WF off (upto_done e2) (with_dec p d2) E) as [[Ho2 Hm2] _]; [split; assumption|].
+    cbn [fst snd]. rewrite Ho2, Hm2, frames_from_length. split; [apply frames_from_seqs|reflexivity].
+Qed.
+
+Lemma wrap_frame_small f : fseq f < TWO64 -> wrap_frame f = f.
+Proof. destruct f; cbn [fseq wrap_frame]; intros H; rewrite N.mod_small by exact H; reflexivity. Qed.
+
+(* No-overflow hypothesis, explicit: when seq_offset + number of frames stays below 2^64 the u64 additions of the
+   code never wrap (release build) and never panic (build with overflow checks): the unbounded model is exact. *)
+Theorem seq_no_wrap cl off cs terr :
+  off + nlen (fst (run_pipe cl FIXED off cs terr)) < TWO64 ->
+  wrap_run (run_pipe cl FIXED off cs terr) = run_pipe cl FIXED off cs terr
+  /\ run_overflows (run_pipe cl FIXED off cs terr) = false.
+Proof.
+  intros H. destruct (run_pipe_shape cl off cs terr) as [Hs He].
+  destruct (run_pipe cl FIXED off cs terr) as [fs sq]. cbn [fst snd] in *. subst sq.
+  unfold wrap_run, run_overflows. cbn [fst snd]. split.
+  - f_equal; [|apply N.mod_small; exact H].
+    rewrite <- (map_id fs) at 2. apply map_ext_in. intros f Hf. apply wrap_frame_small.
+    assert (In (fseq f) (iotaN off (length fs))) as Hi by (rewrite <- Hs; apply in_map; exact Hf).
+    apply iotaN_bound in Hi. unfold nlen in H. lia.
+  - apply N.leb_gt. exact H.
+Qed.
+
+(* and exactly then: one frame more and `*seq += frame_count` overflows *)
+Theorem seq_overflow_iff cl off cs terr :
+  run_overflows (run_pipe cl FIXED off cs terr) = true <-> TWO64 <= off + nlen (fst (run_pipe cl FIXED off cs terr)).
+Proof.
+  destruct (run_pipe_shape cl off cs terr) as [_ He]. unfold run_overflows. rewrite He. apply N.leb_le.
+Qed.
+
+(* ================= non-vacuity: a concrete stream through the instantiated classification ================= *)
+Definition demoA : absfns :=
+  {| a_json_err := fun _ => [107; 101; 121; 32; 109; 117; 115; 116; 32; 98; 101; 32; 97; 32; 115; 116; 114; 105; 110; 103; 32; 97; 116; 32; 108; 105; 110; 101; 32; 49; 32; 99; 111; 108; 117; 109; 110; 32; 50];
+     a_fmt_float := fun t => if lN_eqb t [49; 46; 53; 48] then Some [49; 46; 53] else None;
+     a_validate := fun _ => ([], []) |}.
+
+Lemma demoA_fmt_ok : fmt_ok demoA.
+Proof.
+  intros t t' H. cbn [demoA a_fmt_float] in H. destruct (lN_eqb t _); [|discriminate]. injection H as <-. reflexivity.
+Qed.
+
+(* CRLF and LF blocks: a text delta with an escaped character, keys out of order, a duplicate key and a value spread over
+   two data lines; an event whose SSE name differs from its type; a payload that is not JSON; a payload WITHOUT a type
+   under the event name of a text delta; the terminal marker; an event after it:
+     event: response.output_text.delta\r
+     data: {"delta":"h\u00e9","type":"response.output_text.delta",\r
+     data: "n":1.50,"n":2}\r
+     \r
+     event: x
+     data: {"type":"y"}
+     
+     data: {oops}
+     
+     event: response.output_text.delta
+     data: {"delta":"typeless"}
+     
+     data: [DONE]
+     
+     data: {"after":"done"}
+     
+      *)
+Definition demo2_body : list N :=
+  [101; 118; 101; 110; 116; 58; 32; 114; 101; 115; 112; 111; 110; 115; 101; 46; 111; 117; 116; 112; 117; 116; 95; 116; 101; 120; 116; 46; 100; 101;
+   108; 116; 97; 13; 10; 100; 97; 116; 97; 58; 32; 123; 34; 100; 101; 108; 116; 97; 34; 58; 34; 104; 92; 117; 48; 48; 101; 57; 34; 44;
+   34; 116; 121; 112; 101; 34; 58; 34; 114; 101; 115; 112; 111; 110; 115; 101; 46; 111; 117; 116; 112; 117; 116; 95; 116; 101; 120; 116; 46; 100;
+   101; 108; 116; 97; 34; 44; 13; 10; 100; 97; 116; 97; 58; 32; 34; 110; 34; 58; 49; 46; 53; 48; 44; 34; 110; 34; 58; 50; 125; 13;
+   10; 13; 10; 101; 118; 101; 110; 116; 58; 32; 120; 10; 100; 97; 116; 97; 58; 32; 123; 34; 116; 121; 112; 101; 34; 58; 34; 121; 34; 125;
+   10; 10; 100; 97; 116; 97; 58; 32; 123; 111; 111; 112; 115; 125; 10; 10; 101; 118; 101; 110; 116; 58; 32; 114; 101; 115; 112; 111; 110; 115;
+   101; 46; 111; 117; 116; 112; 117; 116; 95; 116; 101; 120; 116; 46; 100; 101; 108; 116; 97; 10; 100; 97; 116; 97; 58; 32; 123; 34; 100; 101;
+   108; 116; 97; 34; 58; 34; 116; 121; 112; 101; 108; 101; 115; 115; 34; 125; 10; 10; 100; 97; 116; 97; 58; 32; 91; 68; 79; 78; 69; 93;
+   10; 10; 100; 97; 116; 97; 58; 32; 123; 34; 97; 102; 116; 101; 114; 34; 58; 34; 100; 111; 110; 101; 34; 125; 10; 10].
+Definition demo2_expected : list frame :=
+  [FProv 5 2 (Some S_OTD) None
+     (Some (JObj [(S_DELTA, JStr [104; 233]); ([110], JNum [50]); (S_TYPE, JStr S_OTD)])) [] [];
+   FDelta 6 [104; 233];
+   FProv 7 2 (Some [120]) None (Some (JObj [(S_TYPE, JStr [121])]))
+     [M_MIS1 ++ [120] ++ M_MIS2 ++ [121] ++ M_MIS3] [];
+   FProv 8 1 None (Some [123; 111; 111; 112; 115; 125]) None [a_json_err demoA []] [];
+   FProv 9 2 (Some S_OTD) None (Some (JObj [(S_DELTA, JStr [116; 121; 112; 101; 108; 101; 115; 115])])) [] [];
+   FProv 10 0 None (Some S_DONE) None [] []].
+
+Lemma demo2_nontrivial :
+  frames_of (jclassify demoA) FIXED 5 [demo2_body] = demo2_expected
+  /\ frames_of (jclassify demoA) FIXED 5 (map (fun b => [b]) demo2_body) = demo2_expected
+  /\ output_text demo2_expected = [104; 233]
+  /\ Forall2 (carries demoA) (filter is_prov demo2_expected)
+       (upto_done (events_spec (jclassify demoA) (lossy_text demo2_body))).
+Proof.
+  assert (E : frames_of (jclassify demoA) FIXED 5 [demo2_body] = demo2_expected) by (vm_compute; reflexivity).
+  split; [exact E|]. split; [vm_compute; reflexivity|]. split; [reflexivity|].
+  rewrite <- E. replace demo2_body with (concat [demo2_body]) at 2 by (cbn [concat]; apply app_nil_r).
+  apply payload_unchanged. exact demoA_fmt_ok.
+Qed.
+
+(* without the hypothesis of extractor_agrees the two readings differ: the typeless payload above *)
+Lemma extractor_agrees_unconditional_refuted :
+  exists A off cs,
+    concat (extract_text_deltas (frames_of (jclassify A) FIXED off cs)) <> output_text (frames_of (jclassify A) FIXED off cs).
+Proof. exists demoA, 5, [demo2_body]. vm_compute. discriminate. Qed.
+
+(* the hypothesis of seq_no_wrap is satisfiable at the very top of the range, and needed: one more overflows *)
+Definition top_run (off : N) : list frame * N := run_pipe (jclassify demoA) FIXED off [demo2_body] None.
+Lemma seq_top_of_range :
+  nlen (fst (top_run (TWO64 - 1 - 6))) = 6
+  /\ wrap_run (top_run (TWO64 - 1 - 6)) = top_run (TWO64 - 1 - 6) /\ run_overflows (top_run (TWO64 - 1 - 6)) = false
+  /\ run_overflows (top_run (TWO64 - 6)) = true
+  /\ wrap_run (top_run (TWO64 - 6)) <> top_run (TWO64 - 6).
+Proof. vm_compute. repeat split; discriminate. Qed.
